@@ -171,10 +171,12 @@ package snowflake_client
 //@   flag concurrent safety-close
 //@   requires p != nil
 //@   requires {runs-at-most-once} !closed(p.melt) && !closed(p.snowflakeChan) && p.melt != nil
-//@   loop 1 invariant p.activePeers.n >= 0 && p.activePeers.n <= cnt && (e != nil ==> tagis(e.Value, *WebRTCPeer) && unbox(e.Value, *WebRTCPeer) != nil) && held(&p.collectLock) && closed(p.melt) && closed(p.snowflakeChan)
+//@   loop 1 invariant p.activePeers.n >= 0 && p.activePeers.n <= cnt && (e != nil ==> tagis(e.Value, *WebRTCPeer) && unbox(e.Value, *WebRTCPeer) != nil) && held(&p.collectLock) && closed(p.melt) && closed(p.snowflakeChan) && calls(Close) == calls(Remove)
 //@   at call close#1 assert {melt-closed-without-the-lock} ch == p.melt && !held(&p.collectLock)
 //@   at call close#2 assert {handover-closed-under-the-lock-after-melt} ch == p.snowflakeChan && held(&p.collectLock) && closed(p.melt)
 //@   at call Close assert {closes-every-peer-it-holds} held(&p.collectLock)
+//@   at call Remove assert {each-peer-is-closed-before-it-is-dropped} calls(Close) == calls(Remove) + 1 && arg1 == e
+//@   ensures {each-dropped-peer-was-closed} calls(Close) == calls(Remove)
 //
 // ---- a failed attempt to obtain a peer is reported, never fatal (C15) ----
 //@ immutable WebRTCPeer.eventsLogger
